@@ -168,6 +168,16 @@ func ruleE2(c *Ctx) []Ob {
 		for _, fv := range nf.FreeVars {
 			captured[fv] = true
 		}
+		// package-level variables that hold references are shared state just like captured variables
+		for _, b := range nf.Blocks {
+			for _, ins := range b.Instrs {
+				if u, ok := ins.(*ssa.UnOp); ok && u.Op == token.MUL {
+					if g, ok := u.X.(*ssa.Global); ok && c.InModule2(g) && hasPointers(u.Type()) {
+						captured[u] = true
+					}
+				}
+			}
+		}
 		for changed := true; changed; {
 			changed = false
 			for _, b := range nf.Blocks {
@@ -234,6 +244,49 @@ func ruleE2(c *Ctx) []Ob {
 			parent = shortFn(nf.Parent())
 		}
 		s.check(bad == "", "pool-new:"+parent+":"+nf.Name(), c.Pos(nf.Pos()), "New builds a fresh object from constructor calls only", "the pool's New function "+bad+": every object of the pool shares that state, so concurrent users of the pool overwrite each other's scratch")
+	}
+	// a by-value struct argument is encoded from its pooled, addressable copy: the data word of the caller's reflect.Value
+	// is used as the struct's address (rvPtr) only where the value is known not to be a struct (for a struct whose only field is
+	// a pointer or a map the data word is that field, not the struct's address)
+	kStructV, _ := c.constOf("reflect", "Struct")
+	kPtrV, _ := c.constOf("reflect", "Ptr")
+	for _, fn := range c.ModuleFuncs(pkgReflect) {
+		for _, b := range fn.Blocks {
+			for _, ins := range b.Instrs {
+				call, ok := ins.(*ssa.Call)
+				if !ok || call.Call.StaticCallee() == nil || !isRvPtrFn(call.Call.StaticCallee()) || len(call.Call.Args) != 1 {
+					continue
+				}
+				ud := descAccessor(call.Call.Args[0], nil, 0)
+				good := false
+				for f := range blockFacts(b) {
+					if f == fmt.Sprintf("Kind(%s)!=%d", ud, kStructV) || f == fmt.Sprintf("Kind(%s)==%d", ud, kPtrV) {
+						good = true
+					}
+				}
+				s.check(good, shortFn(fn)+":rvPtr", c.InstrPos(call), "data word used as the struct address only for non-struct (pointer) arguments", "the data word of the argument's reflect.Value is taken as the struct's address without a dominating test that the argument is not a struct: a by-value struct with a single pointer or map field is stored directly in that word, so the encoder would walk from the field's value instead of the struct")
+			}
+		}
+	}
+	// factory pools: objects of defs.typePool become part of long-lived, shared type descriptions (field types, cached
+	// descriptors); nothing in the module may hand one back - a second release of the same node makes the pool return one
+	// node for two different types
+	for _, fn := range c.ModuleFuncs(pkgReflect, pkgDefs, pkgRoot) {
+		for _, b := range fn.Blocks {
+			for _, ins := range b.Instrs {
+				ci, ok := ins.(ssa.CallInstruction)
+				if !ok {
+					continue
+				}
+				f := ci.Common().StaticCallee()
+				if f == nil || fnPkgPath(f) != pkgDefs {
+					continue
+				}
+				if releaseParam(f, "typePool") >= 0 {
+					s.bad(shortFn(fn)+":typePool:release", c.InstrPos(ins), "a defs.Type node is handed back to typePool by "+shortFn(fn)+" (through "+f.Name()+"): the nodes are shared by descriptors and by nested parses, and no ownership argument shows that this is the only release - a node released twice is handed out for two different types")
+				}
+			}
+		}
 	}
 	// Reset body of unknownFields
 	if fn := c.Func(pkgReflect, "(*unknownFields).Reset"); fn != nil {
@@ -361,6 +414,17 @@ func e2GetSite(c *Ctx, s *obSink, fn *ssa.Function, get *ssa.Call) {
 func releaseParam(f *ssa.Function, pname string) int {
 	if f == nil || f.Blocks == nil {
 		return -1
+	}
+	// a release helper does nothing but give the object back: a function that also works with the object (and may run
+	// more than once per object, e.g. recursively) is not one
+	for _, b := range f.Blocks {
+		for _, ins := range b.Instrs {
+			if ci, ok := ins.(ssa.CallInstruction); ok && !isPoolCall(ci, "Put") {
+				if _, isBuiltin := ci.Common().Value.(*ssa.Builtin); !isBuiltin {
+					return -1
+				}
+			}
+		}
 	}
 	for _, b := range f.Blocks {
 		for _, ins := range b.Instrs {
@@ -1481,4 +1545,40 @@ func paramStaysPrivate(f *ssa.Function, k int, depth int) bool {
 		}
 	}
 	return true
+}
+
+// isRvPtrFn: a module function of one reflect.Value parameter that reinterprets the value's header and returns its data word.
+func isRvPtrFn(f *ssa.Function) bool {
+	if f.Blocks == nil || len(f.Params) != 1 || f.Params[0].Type().String() != "reflect.Value" || fnPkgPath(f) != pkgReflect {
+		return false
+	}
+	r := f.Signature.Results()
+	if r.Len() != 1 || !isUnsafePointer(r.At(0).Type()) {
+		return false
+	}
+	for _, b := range f.Blocks {
+		for _, ins := range b.Instrs {
+			if cv, ok := ins.(*ssa.Convert); ok && strings.HasSuffix(cv.Type().String(), ".rvtype") {
+				return true
+			}
+		}
+	}
+	return false
+}
+
+// hasPointers: values of the type contain references (slices, maps, pointers, strings excluded as immutable).
+func hasPointers(t types.Type) bool {
+	switch u := t.Underlying().(type) {
+	case *types.Slice, *types.Map, *types.Pointer, *types.Chan, *types.Interface, *types.Signature:
+		return true
+	case *types.Struct:
+		for i := 0; i < u.NumFields(); i++ {
+			if hasPointers(u.Field(i).Type()) {
+				return true
+			}
+		}
+	case *types.Array:
+		return hasPointers(u.Elem())
+	}
+	return false
 }
